@@ -186,16 +186,27 @@ theorem Prov.closeGuard {T U : List Nat} {s : Sys} (h : Prov T U s) (t : Nat) (g
       dsimp only
       exact h.setStack t _ ((h.threads t).1.unregister epoch).1
 
+theorem Prov.enterExitLocal {T U : List Nat} {s : Sys} (h : Prov T U s) (t : Nat) : Prov T U (s.enterExitLocal t) := by
+  unfold Sys.enterExitLocal
+  dsimp only
+  cases hs : (s.th t).stack.enterSpan (s.ctr t) "cl" with
+  | none => exact h
+  | some res =>
+    obtain ⟨st1, hd, c1⟩ := res
+    dsimp only
+    exact (h.setStack t _ (((h.threads t).1.enterSpan hs).exitSpan c1 hd)).putCtr t _
+
+theorem Prov.foldl_enterExitLocal {T U : List Nat} {α : Type} (l : List α) {s : Sys} (h : Prov T U s) (t : Nat) :
+    Prov T U (l.foldl (fun s _ => s.enterExitLocal t) s) := by
+  induction l generalizing s with
+  | nil => exact h
+  | cons x xs ih => exact ih (h.enterExitLocal t)
+
 theorem Prov.runClosure {T U : List Nat} {s : Sys} (h : Prov T U s) (t : Nat) (cl : Closure) : Prov T U (s.runClosure t cl) := by
   unfold Sys.runClosure
   split
-  · dsimp only
-    cases hs : (s.th t).stack.enterSpan (s.ctr t) "cl" with
-    | none => exact h
-    | some res =>
-      obtain ⟨st1, hd, c1⟩ := res
-      dsimp only
-      exact (h.setStack t _ (((h.threads t).1.enterSpan hs).exitSpan c1 hd)).putCtr t _
+  · exact h.enterExitLocal t
+  · exact Prov.foldl_enterExitLocal _ h t
   · dsimp only
     exact (h.setStack t _ ((h.threads t).1.addEvent (s.ctr t) "cl-ev" none)).putCtr t _
   · cases hc : (s.th t).stack.currentToken with
